@@ -20,7 +20,25 @@ def params_in(b, local):
     return sorted(l for l in locs if 1 <= l <= b.argc)
 
 
+def u10_network_duplicates_are_filtered(ctx):
+    """U10: `never ... duplicated by the relay`: for Shadowsocks-2022 datagrams the relay forwards what its replay filter lets through, so a copy the
+    network delivers twice is forwarded twice exactly when the filter forgets. C11's F4 obligations about what the filter forgets when its window moves
+    (ring cleared only over the block difference, clamp = ring length) are re-evaluated here."""
+    from ..engine import Ctx
+    from . import c11
+    sub = Ctx(ctx.prog, "C11", ctx.tier)
+    c11.run(sub)
+    n = 0
+    for o in sub.obs:
+        if o.rule == "F4" and ("ring-cleared" in o.key or "forward-jump-clamp" in o.key):
+            n += 1
+            parts = o.key.split("|")
+            ctx.ob("U10", parts[1], parts[2], o.where, o.ok, o.detail, ordinal=len(parts) > 3)
+    ctx.floor("U10", "filter-forgetting obligations (C11 F4)", 2, n)
+
+
 def run(ctx):
+    u10_network_duplicates_are_filtered(ctx)
     u7_receive_buffers(ctx)
     u8_one_datagram_per_decode(ctx)
     prog = ctx.prog
